@@ -692,4 +692,102 @@ theorem eassign_inBounds (c : ECfg) (hw : c.WF) {p p' : Pos} (h : eassign c p = 
     · cases h; exact torusCorrect_inBounds _ _ hw
     · cases h
 
+/-! ### frame, agent-centred queries, agent subsets -/
+
+/-- the agent a call is about -/
+def EOp.target : EOp → Aid
+  | .new a => a
+  | .set a _ => a
+  | .remove a => a
+
+theorem getPos_estep_frame {s : ESpace} (h : EInv s) (op : EOp) {a : Aid} (ha : a ∈ s.active)
+    (hne : op.target ≠ a) : getPos (estep s op) a = getPos s a := by
+  cases op with
+  | new b =>
+    simp only [estep]
+    cases hb : s.a2i b with
+    | some i => simp
+    | none => simp only [Option.isSome_none, Bool.false_eq_true, if_false]; exact getPos_add h hb ha
+  | set b p =>
+    have hba : a ≠ b := fun e => hne (by simp [EOp.target, e])
+    simp only [estep]
+    rcases setPos_spec h b p with ⟨_, e, he⟩ | ⟨_, _, he⟩ | ⟨p', i, _, _, hidx, he⟩
+    · simp [he]
+    · simp [he]
+    · simp only [he]; rw [getPos_set h hidx]; simp [hba]
+  | remove b =>
+    have hba : a ≠ b := fun e => hne (by simp [EOp.target, e])
+    simp only [estep]
+    cases hb : s.a2i b with
+    | none => simp [removeAgent, hb]
+    | some index =>
+      obtain ⟨s', h1, _, h3, h4, h5, h6, h7⟩ := removeAgent_spec h hb
+      simp only [h1]
+      exact getPos_remove h (einv_remove h hb h4 h3 h5 h7) hb h6 h7 hba
+
+theorem length_filter_ne_of_nodup (l : List (Aid × Int)) (a : Aid) (hn : (l.map (·.1)).Nodup)
+    (ha : a ∈ l.map (·.1)) : (l.filter (fun ad => ad.1 ≠ a)).length + 1 = l.length := by
+  induction l with
+  | nil => simp at ha
+  | cons x xs ih =>
+    simp only [List.map_cons, List.nodup_cons] at hn
+    by_cases hx : x.1 = a
+    · have hnot : a ∉ xs.map (·.1) := by rw [← hx]; exact hn.1
+      have : xs.filter (fun ad => ad.1 ≠ a) = xs := by
+        rw [List.filter_eq_self]
+        intro y hy
+        have : y.1 ≠ a := by rintro rfl; exact hnot (List.mem_map.mpr ⟨y, hy, rfl⟩)
+        simpa using this
+      rw [List.filter_cons_of_neg (by simp [hx]), this]; simp
+    · have ha' : a ∈ xs.map (·.1) := by
+        simp only [List.map_cons, List.mem_cons] at ha
+        rcases ha with e | e
+        · exact absurd e.symm hx
+        · exact e
+      have := ih hn.2 ha'
+      rw [List.filter_cons_of_pos (by simp [hx])]; simp only [List.length_cons]; omega
+
+theorem rowsOf_spec {s : ESpace} (h : EInv s) (sub : List Aid) (hsub : ∀ a ∈ sub, a ∈ s.active) :
+    ∃ l, rowsOf s sub = .ok l ∧ l.map (·.1) = sub ∧ ∀ aq ∈ l, getPos s aq.1 = .ok aq.2 := by
+  have hall : ∀ a ∈ sub, ∃ y, (s.a2i a).map (fun i => (a, i)) = some y := by
+    intro a ha
+    obtain ⟨i, hi⟩ := (h.mem_iff a).mp (hsub a ha)
+    exact ⟨(a, i), by simp [hi]⟩
+  obtain ⟨ais, hc, hm⟩ := collect_map_of_all_some sub _ hall
+  have hget := fun u y => map_some_getElem? hm u y
+  have hok : ∀ ai ∈ ais, s.a2i ai.1 = some ai.2 := by
+    intro ai hai
+    obtain ⟨u, hu⟩ := List.mem_iff_getElem?.mp hai
+    obtain ⟨a, _, hF⟩ := (hget u ai).mp hu
+    cases hi : s.a2i a with
+    | none => simp [hi] at hF
+    | some i => simp [hi] at hF; subst hF; exact hi
+  have hlt : ais.all (fun ai => decide (ai.2 < s.cap)) = true := by
+    rw [List.all_eq_true]
+    intro ai hai
+    have := h.lt (hok ai hai); have := h.cap
+    simp; omega
+  refine ⟨ais.map fun ai => (ai.1, s.buf ai.2), by simp [rowsOf, hc, hlt], ?_, ?_⟩
+  · rw [List.map_map]
+    apply List.ext_getElem?
+    intro u
+    simp only [List.getElem?_map]
+    cases hu : ais[u]? with
+    | none =>
+      have : sub[u]? = none := by
+        have := congrArg (fun z => z[u]?) hm
+        simp only [List.getElem?_map, hu, Option.map_none] at this
+        cases hs : sub[u]? with
+        | none => rfl
+        | some a => rw [hs] at this; simp at this
+      simp [this]
+    | some ai =>
+      obtain ⟨a, ha, hF⟩ := (hget u ai).mp hu
+      cases hi : s.a2i a with
+      | none => simp [hi] at hF
+      | some i => simp [hi] at hF; subst hF; simp [ha]
+  · intro aq haq
+    obtain ⟨ai, hai, rfl⟩ := List.mem_map.mp haq
+    exact getPos_of_idx h (hok ai hai)
+
 end Mesa.Cont
